@@ -276,3 +276,39 @@ def run_all(jobs, parallel=None):
     with concurrent.futures.ThreadPoolExecutor(max_workers=parallel) as ex:
         futs = [ex.submit(c.run, h, **kw) for (c, h, kw) in jobs]
         return [f.result() for f in futs]
+
+
+class NativeCrate:
+    """A plain native crate assembled from real source slices + shims, built against the real dependencies and run
+    as a subprocess.  Used to replay Engine-Z witnesses on the real code (never the deciding step)."""
+
+    def __init__(self, name, main_rs, deps=None):
+        self.name = name
+        self.dir = os.path.join(SCRATCH, "verif-%s-%d" % (name, os.getpid()))
+        shutil.rmtree(self.dir, ignore_errors=True)
+        os.makedirs(os.path.join(self.dir, "src"))
+        with open(os.path.join(self.dir, "Cargo.toml"), "w") as f:
+            f.write('[package]\nname = "%s"\nversion = "0.1.0"\nedition = "2018"\n\n[workspace]\n\n[dependencies]\n%s\n'
+                    '[profile.dev]\ndebug = false\n' % (name, "".join("%s = %s\n" % kv for kv in (deps or {}).items())))
+        shutil.copy(os.path.join(REPO, "Cargo.lock"), os.path.join(self.dir, "Cargo.lock"))
+        with open(os.path.join(self.dir, "src", "main.rs"), "w") as f:
+            f.write("#![allow(warnings)]\n" + main_rs)
+        self.exe = None
+
+    def build(self):
+        tdir = os.path.join(BUILD, "native", self.name)
+        os.makedirs(tdir, exist_ok=True)
+        p = subprocess.run(["cargo", "build", "--offline", "--target-dir", tdir], cwd=self.dir, capture_output=True, text=True, env=ENV)
+        if p.returncode != 0:
+            raise RuntimeError("native crate %s failed to build:\n%s" % (self.name, p.stderr[-4000:]))
+        self.exe = os.path.join(tdir, "debug", self.name)
+        return self.exe
+
+    def run(self, stdin="", args=(), timeout=120):
+        if self.exe is None:
+            self.build()
+        p = subprocess.run([self.exe] + list(args), input=stdin, capture_output=True, text=True, timeout=timeout)
+        return p.stdout, p.stderr, p.returncode
+
+    def cleanup(self):
+        shutil.rmtree(self.dir, ignore_errors=True)
